@@ -1,771 +1,9 @@
 """C19 - all input forms and front ends give the same result.
 
-Model side: coq/theories/Sys/Frontends.v (decode_input = the decode ladder of Lexer.get_tokens, with a total
-model of CPython's unicode-escape codec) + Props/C19.v.  Correspondence: `decode`, `uescape`, `apisplit`,
-`apiparse` of the extracted model against the real library.  Direct oracles on the real library for the whole
-property: every input form x parse/parsestream/split/format, and the sqlformat command line in-process.
-
-A case is a dict:
-  {'kind':'api',   'text':[code points], 'enc': name}          every form of the text, every entry point
-  {'kind':'bytes', 'bytes':[ints]}                             bytes without encoding vs the documented reading
-  {'kind':'cli',   'text':[code points], 'enc': name, 'flags':[argv...], 'meant':{dest: value}, 'inp':'file'|'stdin', 'out':'stdout'|'outfile'}
-A failure is the case + 'observed', 'expected', 'class'.
-"""
-import collections
-import io
-import os
-import shutil
-import sys
-import tempfile
-import time
-import warnings
-
-import vlib
-import impl
-import impl_frontends as IF
-import gens
-import gens_frontends as GF
-from props import common
-
-THEOREMS = [
-    'Props/C19.v: C19_str, C19_stream (decode_input (IStr s) = decode_input (IStream s) = Ok s)',
-    'C19_utf8_noenc / C19_utf8_enc (utf8_encode s = Some bs -> bytes [+ utf-8] decode to s; from utf8_roundtrip)',
-    'C19_bytes_enc (any codec + its own round-trip law -> bytes + encoding decode to s)',
-    'C19_parse_forms / _parsestream_forms / _split_forms / _format_forms (ANY option-built text function) / '
-    '_format_plain_forms: api_X i = api_X (IStr s) for every form i that denotes s; C19_api_of_text',
-    'C19_parse_is_stream + C19_parse_is_stream_src, C19_single_decode (vm_compute over Gen/Frontends.v: AST facts '
-    'about __init__.py, FilterStack.run, lexer.tokenize, Lexer.get_tokens regenerated on every run)',
-    'C19_latin1_partial (no backslash), C19_latin1_partial_benign (every backslash followed by a non-escape byte), '
-    'C19_latin1_exact (iff, unicode-escape fallback), C19_latin1_refuted_escape / C19_latin1_refuted (witnesses), '
-    'C19_latin1_if_fixed, C19_latin1_current (case split on the fallback codec found in the source)',
-    'Sys/FrontendsFacts.v: ue_go_len, benign_ok, benign_complete, uescape_latin1_iff, decode_noenc_errors',
-]
-TRUSTED = [
-    'Sys/Frontends.v: hand-written model of CPython 3.12 unicode-escape decoding (validated against '
-    'bytes.decode on random and exhaustive short byte strings) and of the decode ladder (template-matched by '
-    'tools/regen/gen_frontends.py, fail-closed)',
-    'codecs other than UTF-8/Latin-1 are abstract (COther): only their round-trip law is used; the implementation '
-    'side exercises cp1251, gbk, utf-16, utf-32, ascii',
-    'the command line (argparse, file/stdin/stdout plumbing) is not modelled: checked by the direct oracle only',
-]
-ASSUMPTIONS = [
-    '\\N{name} escapes in the unicode-escape fallback are not modelled (Err Stuck; counted and skipped)',
-    'a truthy `encoding` argument (encoding="" behaves like None in the code)',
-    'DeprecationWarning for unknown escapes is ignored (python -W error would turn it into an exception)',
-    'a text stream is modelled by the text its read() returns',
-]
-
-FORMAT_OPTS = [
-    {}, {'reindent': True}, {'keyword_case': 'upper'}, {'identifier_case': 'upper'}, {'strip_comments': True},
-    {'reindent_aligned': True}, {'use_space_around_operators': True}, {'strip_whitespace': True},
-    {'output_format': 'python'}, {'reindent': True, 'comma_first': True, 'indent_width': 4},
-    {'truncate_strings': 5},
-]
-CLI_ENCODINGS = ['utf-8', 'latin-1', 'gbk', 'cp1251']
-BOOL_MEANT = {'True': True, 'true': True, '1': True, 'False': False, 'false': False, '0': False, '': False}
-
-
-# =================================================================================================
-# observing the library
-def _quiet(fn, *a, **kw):
-    with warnings.catch_warnings():
-        warnings.simplefilter('ignore')
-        try:
-            return ('OK', fn(*a, **kw))
-        except RecursionError:
-            raise
-        except Exception as e:  # noqa
-            return ('EXC', type(e).__name__)
-
-
-def _parse_dump(x, enc=None):
-    import sqlparse
-    return _quiet(lambda: impl.nodes_str(sqlparse.parse(x, enc)))
-
-
-def _parsestream_dump(x, enc=None):
-    import sqlparse
-    return _quiet(lambda: impl.nodes_str(list(sqlparse.parsestream(x, enc))))
-
-
-def _split(x, enc=None):
-    import sqlparse
-    return _quiet(lambda: sqlparse.split(x, enc))
-
-
-def _format(x, enc, opts):
-    import sqlparse
-    return _quiet(lambda: sqlparse.format(x, encoding=enc, **opts))
-
-
-def observers():
-    obs = [('parse', _parse_dump), ('parsestream', _parsestream_dump), ('split', _split)]
-    for o in FORMAT_OPTS:
-        obs.append(('format' + repr(sorted(o.items())), lambda x, enc=None, o=o: _format(x, enc, o)))
-    return obs
-
-
-def forms_of(text, enc):
-    """(name, value, encoding argument) for every way of passing `text` that the property lists."""
-    out = [('stream', lambda: io.StringIO(text), None)]
-    try:
-        b = text.encode(enc)
-        if b.decode(enc) == text:
-            out.append(('bytes+' + enc, lambda b=b: b, enc))
-    except UnicodeError:
-        pass
-    try:
-        u = text.encode('utf-8')
-        out.append(('utf8-bytes', lambda u=u: u, None))
-    except UnicodeError:     # lone surrogates
-        pass
-    return out
-
-
-def fallback_class(bs):
-    """Why bytes-without-encoding differ from the Latin-1 reading."""
-    try:
-        bytes(bs).decode('utf-8')
-        return None
-    except UnicodeDecodeError:
-        pass
-    return 'unicode-escape-fallback' if b'\\' in bytes(bs) else None
-
-
-def oracle_api(case, obs=None):
-    text = ''.join(map(chr, case['text']))
-    enc = case['enc']
-    for oname, f in (obs or observers()):
-        ref = f(text)
-        for fname, mk, e in forms_of(text, enc):
-            got = f(mk(), e) if e else f(mk())
-            if got != ref:
-                return dict(case, observed=f'{oname} on {fname}: {str(got)[:300]}', expected=str(ref)[:300],
-                            **{'class': 'api-form-differs'})
-    # parse vs parsestream
-    if _parse_dump(text) != _parsestream_dump(text):
-        return dict(case, observed='list(parsestream(s)) differs from parse(s)', expected='', **{'class': 'parse-vs-parsestream'})
-    return None
-
-
-def oracle_bytes(case, obs=None):
-    """bytes without encoding: UTF-8 if they are UTF-8, else (as documented) Latin-1."""
-    bs = bytes(case['bytes'])
-    try:
-        reading, how = bs.decode('utf-8'), 'utf-8'
-    except UnicodeDecodeError:
-        reading, how = bs.decode('latin-1'), 'latin-1'
-    for oname, f in (obs or observers()):
-        ref = f(reading)
-        got = f(bs)
-        if got != ref:
-            cls = fallback_class(bs) if how == 'latin-1' else None
-            return dict(case, observed=f'{oname} on bytes without encoding: {str(got)[:300]}',
-                        expected=f'({how} reading) {str(ref)[:300]}', **{'class': cls or 'bytes-noenc-differs'})
-    return None
-
-
-# =================================================================================================
-# the command line, in-process
-# the documented meaning of the sqlformat flags (docs/source/ui.rst of the pinned revision): flag -> formatter option.
-# The expectation must NOT be read off argparse's `dest`: a flag that lands in another dest silently formats without the option.
-FLAG_TO_OPTION = {
-    '-k': 'keyword_case', '--keywords': 'keyword_case', '-i': 'identifier_case', '--identifiers': 'identifier_case',
-    '-l': 'output_format', '--language': 'output_format', '--strip-comments': 'strip_comments',
-    '-r': 'reindent', '--reindent': 'reindent', '--indent_width': 'indent_width',
-    '--indent_after_first': 'indent_after_first', '--indent_columns': 'indent_columns',
-    '-a': 'reindent_aligned', '--reindent_aligned': 'reindent_aligned',
-    '-s': 'use_space_around_operators', '--use_space_around_operators': 'use_space_around_operators',
-    '--wrap_after': 'wrap_after', '--comma_first': 'comma_first', '--compact': 'compact',
-}
-
-
-def doc_option(a):
-    for o in a.option_strings:
-        if o in FLAG_TO_OPTION:
-            return FLAG_TO_OPTION[o]
-    return a.dest
-
-
-def cli_actions():
-    """(action, kind) for every option of cli.create_parser(); unknown kinds are reported."""
-    import argparse
-    from sqlparse import cli
-    p = cli.create_parser()
-    out = []
-    unknown = []
-    for a in p._actions:
-        if isinstance(a, (argparse._HelpAction, argparse._VersionAction)):
-            continue
-        if a.dest in ('filename', 'outfile', 'encoding'):
-            continue
-        if isinstance(a, argparse._StoreTrueAction):
-            out.append((a, 'flag'))
-        elif isinstance(a, argparse._StoreAction) and a.choices:
-            out.append((a, 'choice'))
-        elif isinstance(a, argparse._StoreAction) and a.type is int:
-            out.append((a, 'int'))
-        elif isinstance(a, argparse._StoreAction) and a.type is bool:
-            out.append((a, 'bool'))
-        else:
-            unknown.append(a.dest)
-    return out, unknown
-
-
-def flag_values(a, kind):
-    """[(argv pieces, value the user means)] -- for every spelling of the flag"""
-    out = []
-    for opt in a.option_strings:
-        if kind == 'flag':
-            out += [([opt], True)]
-        elif kind == 'choice':
-            out += [([opt, c], c) for c in a.choices]
-        elif kind == 'int':
-            out += [([opt, str(v)], v) for v in ((0, 1, 2, 4, 30) if opt == a.option_strings[-1] else (2,))]
-        elif kind == 'bool':
-            out += [([opt, v], BOOL_MEANT[v]) for v in ('True', 'False', '1', '')]
-        else:
-            raise ValueError(kind)
-    return out
-
-
-def run_cli(argv, stdin_bytes=None, stdin_encoding='utf-8'):
-    """sqlparse.cli.main(argv) with patched stdin/stdout/stderr; returns (rc, stdout text, stderr text)."""
-    from sqlparse import cli
-    old = sys.stdin, sys.stdout, sys.stderr
-    out_raw = io.BytesIO()
-    err = io.StringIO()
-    sys.stdout = io.TextIOWrapper(out_raw, encoding='utf-8', errors='surrogatepass', newline='')
-    sys.stderr = err
-    if stdin_bytes is not None:
-        sys.stdin = io.TextIOWrapper(io.BytesIO(stdin_bytes), encoding=stdin_encoding)
-    try:
-        try:
-            with warnings.catch_warnings():
-                warnings.simplefilter('ignore')
-                rc = cli.main(argv)
-        except SystemExit as e:
-            rc = 'exit %r' % (e.code,)
-        except RecursionError:
-            raise
-        except Exception as e:  # noqa
-            rc = 'EXC ' + type(e).__name__
-        try:
-            sys.stdout.flush()
-        except Exception:  # noqa
-            pass
-        return rc, out_raw.getvalue().decode('utf-8', 'surrogatepass'), err.getvalue()
-    finally:
-        sys.stdin, sys.stdout, sys.stderr = old
-
-
-def universal_newlines(s):
-    return s.replace('\r\n', '\n').replace('\r', '\n')
-
-
-def expected_cli(decoded, meant):
-    import sqlparse
-    from sqlparse.exceptions import SQLParseError
-    try:
-        with warnings.catch_warnings():
-            warnings.simplefilter('ignore')
-            return 'OK', sqlparse.format(decoded, **meant)
-    except SQLParseError as e:
-        return 'INVALID', str(e)
-
-
-def oracle_cli(case, workdir=None):
-    """Expected: what format(decoded text, **options the flags mean) returns, on the chosen channel, in the
-    same encoding (stdout is compared as text: sys.stdout has its own encoding)."""
-    text = ''.join(map(chr, case['text']))
-    enc = case['enc']
-    data = text.encode(enc)
-    own = workdir is None
-    d = workdir or tempfile.mkdtemp(prefix='c19cli')
-    try:
-        inp = os.path.join(d, 'in.sql')
-        outp = os.path.join(d, 'out.sql')
-        if os.path.exists(outp):
-            os.remove(outp)
-        argv = []
-        stdin_bytes = None
-        if case['inp'] == 'file':
-            with open(inp, 'wb') as f:
-                f.write(data)
-            argv.append(inp)
-        else:
-            argv.append('-')
-            stdin_bytes = data
-        argv += list(case['flags'])
-        if enc != 'utf-8' or case.get('explicit_enc'):
-            argv += ['--encoding', enc]
-        if case['out'] == 'outfile':
-            argv += ['-o', outp]
-        rc, out, err = run_cli(argv, stdin_bytes)
-        if case['out'] == 'outfile':
-            try:
-                with open(outp, 'rb') as f:
-                    got_bytes = f.read()
-            except OSError:
-                got_bytes = None
-        else:
-            got_bytes = None
-    finally:
-        if own:
-            shutil.rmtree(d, ignore_errors=True)
-
-    meant = dict(case['meant'])
-
-    def want(decoded, opts):
-        st, exp = expected_cli(decoded, opts)
-        if st == 'INVALID':
-            return ('INVALID',)
-        if case['out'] == 'outfile':
-            try:
-                return ('OK', exp.encode(enc))
-            except UnicodeEncodeError:
-                return ('UNENCODABLE',)
-        return ('OK', exp)
-
-    def matches(w):
-        if w[0] == 'INVALID':
-            return rc == 1 and err.startswith('[ERROR] Invalid options') and out == ''
-        if w[0] == 'UNENCODABLE':
-            return False
-        if case['out'] == 'outfile':
-            return rc == 0 and got_bytes == w[1] and out == ''
-        return rc == 0 and out == w[1]
-
-    w0 = want(text, meant)
-    if matches(w0):
-        return None
-    # explain the deviation by the known mechanisms
-    acts = {o: (a, k) for a, k in cli_actions()[0] for o in a.option_strings}
-    flagged = {}
-    fl = list(case['flags'])
-    i = 0
-    while i < len(fl):
-        a, k = acts.get(fl[i], (None, None))
-        if k == 'bool' and i + 1 < len(fl):
-            flagged[doc_option(a)] = bool(fl[i + 1])      # what type=bool makes of the string
-            i += 2
-        else:
-            i += 1
-    cls = None
-    for nl, bf in ((True, False), (False, True), (True, True)):
-        t = universal_newlines(text) if nl else text
-        o = dict(meant, **flagged) if bf else meant
-        if (nl and t == text) or (bf and o == meant):
-            continue
-        w = want(t, o)
-        if matches(w) or (w[0] == 'UNENCODABLE' and rc == 'EXC UnicodeEncodeError'):
-            cls = '+'.join(c for c, on in (('cli-universal-newlines', nl), ('cli-bool-flag', bf)) if on)
-            if w[0] == 'UNENCODABLE':
-                cls += '+cli-unencodable-output'
-            break
-    if cls is None and w0[0] == 'UNENCODABLE' and rc == 'EXC UnicodeEncodeError':
-        cls = 'cli-unencodable-output'
-    shown = got_bytes if case['out'] == 'outfile' else out
-    return dict(case, observed=f'rc={rc!r} out={shown!r:.300} err={err[:120]!r}',
-                expected=f'{w0[0]} {(w0[1] if len(w0) > 1 else "")!r:.300}', **{'class': cls or 'cli-differs'})
-
-
-# =================================================================================================
-def oracle(case):
-    k = case.get('kind')
-    if k == 'api':
-        return oracle_api(case)
-    if k == 'bytes':
-        return oracle_bytes(case)
-    if k == 'cli':
-        return oracle_cli(case)
-    raise ValueError(k)
-
-
-def _clean(case):
-    return {k: v for k, v in case.items() if k not in ('observed', 'expected', 'class', 'stage')}
-
-
-def classify(f, known):
-    """id of the known finding that explains failure f (every component class must be listed)."""
-    cls = f.get('class')
-    if not cls:
-        return None
-    ids = []
-    for c in cls.split('+'):
-        hit = [k['id'] for k in known if k.get('class') == c]
-        if not hit:
-            return None
-        ids.append(hit[0])
-    return ids[0]
-
-
-def rederive_known(k):
-    w = k.get('witness')
-    if not isinstance(w, dict) or 'kind' not in w:
-        return None
-    f = oracle(w)
-    if f and k.get('class') in (f.get('class') or '').split('+'):
-        return f
-    return None
-
-
-def shrink(f):
-    """Delta-debug the text / bytes of the failing case, keeping the failure class."""
-    if not f or 'kind' not in f:
-        return f
-    cls = f.get('class')
-    base = _clean(f)
-    key = 'bytes' if f['kind'] == 'bytes' else 'text'
-
-    def fails(s):
-        c = dict(base)
-        c[key] = [ord(ch) for ch in s]
-        if f['kind'] != 'bytes':
-            try:
-                s.encode(c['enc'])
-            except UnicodeError:
-                return None
-        try:
-            g = oracle(c)
-        except Exception:  # noqa
-            return None
-        return g if g and g.get('class') == cls else None
-    s0 = ''.join(map(chr, f[key]))
-    _, best = common.shrink_text(s0, fails)
-    best = best or f
-    # drop flags that are not needed
-    if best.get('kind') == 'cli' and best.get('flags'):
-        acts, _ = cli_actions()
-        changed = True
-        while changed:
-            changed = False
-            for a, kind in acts:
-                if doc_option(a) in best['meant']:
-                    c = _clean(best)
-                    fl = list(c['flags'])
-                    for o in a.option_strings:
-                        if o in fl:
-                            i = fl.index(o)
-                            del fl[i:i + (1 if kind == 'flag' else 2)]
-                    c['flags'] = fl
-                    c['meant'] = {k: v for k, v in c['meant'].items() if k != doc_option(a)}
-                    g = oracle(c)
-                    if g and g.get('class') == cls:
-                        best, changed = g, True
-                        break
-    return best
-
-
-def replay(payload):
-    f = payload.get('failure')
-    if not f or 'kind' not in f:
-        return {'fails': False, 'note': 'no concrete case in replay file: ' + str(payload.get('no_longer_checks'))}
-    g = oracle(_clean(f))
-    return {'fails': bool(g), 'observed': g}
-
-
-# =================================================================================================
-# generation
-def gen_api_cases(ctx, n):
-    r = ctx.rng
-    out = []
-    dist = collections.Counter()
-    # texts whose encoding in a one-byte codec happens to be well-formed UTF-8 with another meaning (mojibake): an
-    # implementation that guesses UTF-8 before honouring the encoding argument gets these wrong
-    for enc in ('latin-1', 'cp1251'):
-        for raw in ('select \u00e9 from t', "select '\u00a3\u20ac' x", '-- \u00fc\nselect 1', 'select \u044f'):
-            try:
-                t = raw.encode('utf-8').decode(enc)
-            except UnicodeError:
-                continue
-            if GF.encodable(t, enc):
-                dist['mojibake:' + enc] += 1
-                out.append({'kind': 'api', 'text': [ord(c) for c in t], 'enc': enc})
-    t16 = 'select 1'
-    out.append({'kind': 'api', 'text': [ord(c) for c in t16], 'enc': 'utf-16-le'})
-    dist['utf-16-le ascii'] += 1
-    while len(out) < n:
-        s, kind = GF.text_for(r, ctx.n(80, 300))
-        encs = [e for e in GF.IMPL_ENCODINGS if GF.encodable(s, e)]
-        if not encs:
-            encs = ['utf-8'] if GF.encodable(s, 'utf-8') else []
-        if not encs:
-            dist['unencodable(lone surrogate)'] += 1
-            out.append({'kind': 'api', 'text': [ord(c) for c in s], 'enc': 'utf-8'})
-            continue
-        e = r.choice(encs)
-        dist[e] += 1
-        out.append({'kind': 'api', 'text': [ord(c) for c in s], 'enc': e})
-    return out, dist
-
-
-def gen_cli_cases(ctx, n_random):
-    """Every single flag value x {file, stdin} x {stdout, outfile} x encodings, then random combinations."""
-    r = ctx.rng
-    acts, unknown = cli_actions()
-    samples = {
-        'utf-8': "select a, b as x, 'é€' from t where c = 1 and d in (select 2) -- é\norder by a;\nselect 'x  y';",
-        'latin-1': "select a, b as x, 'é' from t where c=1 and d in (select 2) -- ü\norder by a;\nselect 2;",
-        'gbk': "select a, b as x, '表名' from 表 where c=1 and d in (select 2) -- 列\norder by a;\nselect 2;",
-        'cp1251': "select a, b as x, 'Песня' from t where c=1 and d in (select 2) -- про\norder by a;\nselect 2;",
-    }
-    cases = []
-    for a, kind in acts:
-        for argv, meant in flag_values(a, kind):
-            for ctx_flags, ctx_meant in (([], {}), (['-r'], {'reindent': True})):    # alone, and together with -r
-                if doc_option(a) == 'reindent' and ctx_flags:
-                    continue
-                for enc in CLI_ENCODINGS:
-                    for inp in ('file', 'stdin'):
-                        for outc in ('stdout', 'outfile'):
-                            cases.append({'kind': 'cli', 'text': [ord(c) for c in samples[enc]], 'enc': enc,
-                                          'flags': ctx_flags + argv, 'meant': dict(ctx_meant, **{doc_option(a): meant}),
-                                          'inp': inp, 'out': outc})
-    # no flag at all
-    for enc in CLI_ENCODINGS:
-        for inp in ('file', 'stdin'):
-            for outc in ('stdout', 'outfile'):
-                cases.append({'kind': 'cli', 'text': [ord(c) for c in samples[enc]], 'enc': enc, 'flags': [],
-                              'meant': {}, 'inp': inp, 'out': outc, 'explicit_enc': True})
-    n_single = len(cases)
-    alph = {'utf-8': 'misc', 'latin-1': 'latin', 'gbk': 'cjk', 'cp1251': 'cyr'}
-    for _ in range(n_random):
-        enc = r.choice(CLI_ENCODINGS)
-        for _try in range(20):
-            s, _k = gens.mixed_text(r)
-            s = s[:r.randrange(1, ctx.n(120, 400))]
-            cs = list(s)
-            for _i in range(r.randrange(0, 4)):
-                cs.insert(r.randrange(len(cs) + 1), r.choice(GF.ALPHABETS[alph[enc]]))
-            if r.random() < 0.08:
-                cs.insert(r.randrange(len(cs) + 1), r.choice(['\r\n', '\r']))
-            s = ''.join(cs)
-            if GF.encodable(s, enc):
-                break
-        else:
-            s = 'select 1'
-        flags, meant = [], {}
-        for a, kind in r.sample(acts, r.randrange(0, 6)):
-            argv, m = r.choice(flag_values(a, kind))
-            flags += argv
-            meant[doc_option(a)] = m
-        cases.append({'kind': 'cli', 'text': [ord(c) for c in s], 'enc': enc, 'flags': flags, 'meant': meant,
-                      'inp': r.choice(['file', 'stdin']), 'out': r.choice(['stdout', 'outfile'])})
-    return cases, n_single, unknown
-
-
-def gen_decode_requests(ctx, n):
-    """(request line, impl thunk, tag) for the model/impl correspondence of the decode point."""
-    r = ctx.rng
-    reqs = []
-    dist = collections.Counter()
-    for _ in range(n):
-        k = r.random()
-        if k < 0.45:
-            s, kind = GF.text_for(r, ctx.n(100, 400))
-            forms = [('str', s), ('stream', s)]
-            if GF.encodable(s, 'utf-8'):
-                b = s.encode('utf-8')
-                forms += [('utf-8', b), ('none', b)]
-            if GF.encodable(s, 'latin-1'):
-                b = s.encode('latin-1')
-                forms += [('latin-1', b), ('none', b)]
-            form, payload = r.choice(forms)
-            dist['text:' + form] += 1
-        elif k < 0.95:
-            payload = GF.byte_soup(r)
-            form = r.choice(['none', 'none', 'none', 'utf-8', 'latin-1'])
-            dist['soup:' + form] += 1
-        else:
-            form, payload = 'other', b''
-            dist['other'] += 1
-        reqs.append((form, payload))
-    return reqs, dist
-
-
-def _payload_str(form, payload):
-    if form in ('str', 'stream'):
-        return vlib.cps(payload)
-    return IF.cpsb(payload)
-
-
-def corr_decode(ctx, n, res):
-    reqs, dist = gen_decode_requests(ctx, n)
-    # fixed witnesses first
-    fixed = [('none', b"select '\xe9\\n'"), ('none', b"'\xe9\\x'"), ('none', b"select '\xe9' -- C:\\new\\table"),
-             ('none', b"'\xe9\\N{BULLET}'"), ('none', b"'\xe9\\N{BULLET}\\x'"), ('none', b"\xe9\\N{}"), ('utf-8', b'\xe9'),
-             ('latin-1', b'\xe9\\n'), ('none', b''), ('str', ''), ('stream', '\r\n'), ('other', b'')]
-    reqs = fixed + reqs
-    replies = vlib.run_model([f'decode {f} {_payload_str(f, p)}' for f, p in reqs])
-    stuck = 0
-    fb = collections.Counter()
-    for (form, payload), rep in zip(reqs, replies):
-        mine = IF.decode_dump(form, payload)
-        if rep == 'ERR Stuck':
-            stuck += 1
-            if not IF.has_name_escape(payload):
-                res['disagreements'].append({'stage': 'decode', 'form': form, 'bytes': list(payload),
-                                             'impl': mine[:300], 'model': rep, 'note': 'Stuck without \\N{name}'})
-            continue
-        if form == 'none':
-            try:
-                payload.decode('utf-8')
-                fb['utf-8'] += 1
-            except UnicodeDecodeError:
-                fb['fallback:' + ('backslash' if b'\\' in payload else 'plain') + (':raises' if mine.startswith('ERR') else '')] += 1
-        if mine != rep:
-            res['disagreements'].append({'stage': 'decode', 'form': form,
-                                         'bytes' if isinstance(payload, bytes) else 'input':
-                                         list(payload) if isinstance(payload, bytes) else [ord(c) for c in payload],
-                                         'impl': mine[:300], 'model': rep[:300]})
-    # the unicode-escape codec itself against CPython
-    ue = [GF.esc_bytes(ctx.rng) for _ in range(n)]
-    ue += [b'\\' + bytes([i]) for i in range(256)]
-    rep2 = vlib.run_model(['uescape ' + IF.cpsb(b) for b in ue])
-    stuck2 = 0
-    for b, rep in zip(ue, rep2):
-        mine = IF.uescape_dump(b)
-        if rep == 'ERR Stuck':
-            stuck2 += 1
-            if not IF.has_name_escape(b):
-                res['disagreements'].append({'stage': 'uescape', 'bytes': list(b), 'impl': mine, 'model': rep})
-            continue
-        if mine != rep:
-            res['disagreements'].append({'stage': 'uescape', 'bytes': list(b), 'impl': mine[:300], 'model': rep[:300]})
-    return len(reqs), len(ue), stuck, stuck2, dist, fb
-
-
-def corr_api(ctx, n, res):
-    """apisplit / apiparse of the model against split()/parse() on bytes, streams and str."""
-    r = ctx.rng
-    reqs = []
-    for _ in range(n):
-        if r.random() < 0.5:
-            s, _ = GF.text_for(r, ctx.n(100, 300))
-            forms = [('str', s), ('stream', s)]
-            if GF.encodable(s, 'utf-8'):
-                forms += [('utf-8', s.encode('utf-8')), ('none', s.encode('utf-8'))]
-            if GF.encodable(s, 'latin-1'):
-                forms += [('latin-1', s.encode('latin-1')), ('none', s.encode('latin-1'))]
-            reqs.append(r.choice(forms))
-        else:
-            reqs.append(('none', GF.byte_soup(r)))
-    for cmd, fn in (('apisplit', IF.apisplit_dump), ('apiparse', IF.apiparse_dump)):
-        replies = vlib.run_model([f'{cmd} {f} {_payload_str(f, p)}' for f, p in reqs])
-        for (form, payload), rep in zip(reqs, replies):
-            if rep == 'ERR Stuck':
-                continue
-            mine = fn(form, payload)
-            if mine != rep:
-                res['disagreements'].append({'stage': cmd, 'form': form,
-                                             'bytes': list(payload) if isinstance(payload, bytes) else [ord(c) for c in payload],
-                                             'impl': mine[:300], 'model': rep[:300]})
-    return 2 * len(reqs)
-
-
-# =================================================================================================
-def sweep(ctx, res):
-    """Direct oracles on the real library; returns counts."""
-    obs = observers()
-    t0 = time.time()
-    api_cases, api_dist = gen_api_cases(ctx, ctx.n(1500, 20000))
-    seen = set()
-    for c in api_cases:
-        f = oracle_api(c, obs)
-        if f and f['class'] not in seen:
-            seen.add(f['class'])
-            res['failures'].append(f)
-    n_bytes = ctx.n(3000, 20000)
-    bdist = collections.Counter()
-    for _ in range(n_bytes):
-        bs = GF.byte_soup(ctx.rng)
-        c = {'kind': 'bytes', 'bytes': list(bs)}
-        f = oracle_bytes(c, obs[:4])
-        bdist['differs:' + f['class'] if f else 'agrees'] += 1
-        if f and f['class'] not in seen:
-            seen.add(f['class'])
-            res['failures'].append(shrink(f))
-    cli_cases, n_single, unknown = gen_cli_cases(ctx, ctx.n(400, 6000))
-    if unknown:
-        res['disagreements'].append({'stage': 'cli-flags', 'detail': 'options of an unknown kind: %r' % unknown})
-    cdist = collections.Counter()
-    d = tempfile.mkdtemp(prefix='c19cli')
-    try:
-        for c in cli_cases:
-            f = oracle_cli(c, d)
-            cdist['differs:' + f['class'] if f else 'agrees'] += 1
-            if f and f['class'] not in seen:
-                seen.add(f['class'])
-                res['failures'].append(shrink(f))
-    finally:
-        shutil.rmtree(d, ignore_errors=True)
-    return {'api_cases': len(api_cases), 'api_evals': len(api_cases) * len(obs) * 4, 'api_encodings': dict(api_dist),
-            'bytes_cases': n_bytes, 'bytes_outcomes': dict(bdist), 'cli_cases': len(cli_cases),
-            'cli_single_flag_cases': n_single, 'cli_outcomes': dict(cdist), 'sweep_s': round(time.time() - t0, 1)}
-
-
-def run(ctx):
-    res = {'disagreements': [], 'failures': []}
-    n = ctx.n(20000, 100000)
-    nd, nu, stuck, stuck2, dist, fb = corr_decode(ctx, n, res)
-    na = corr_api(ctx, ctx.n(1500, 15000), res)
-    sw = sweep(ctx, res)
-    res.update({
-        'evaluations': nd + nu + na + sw['api_evals'] + sw['bytes_cases'] * 4 + sw['cli_cases'],
-        'distinct_nontrivial': sum(v for k, v in fb.items() if k.startswith('fallback')) + sw['cli_cases'],
-        'rule': 'decode stage: (form, payload) with form in str/stream/bytes+utf-8/bytes+latin-1/bytes without encoding/'
-                'other object; payload = SQL from the grammar generators sprinkled with Latin/Cyrillic/CJK/astral '
-                'characters, or byte soups (UTF-8, mutilated UTF-8, Latin-1 with injected backslash escapes, random '
-                'bytes); the model reply `decode` is compared with the concatenated token values of lexer.tokenize; '
-                'uescape stage: unicode_escape_decode against bytes.decode("unicode-escape"); apisplit/apiparse: '
-                'whole entry points. distinct_nontrivial = decode cases that took the fallback path + CLI cases. '
-                'Direct oracle sweep: every form x parse/parsestream/split/format(11 option sets); bytes without '
-                'encoding vs documented reading; sqlformat in-process for every flag of create_parser() x '
-                '{file,stdin} x {stdout,-o} x {utf-8,latin-1,gbk,cp1251} + random flag combinations',
-        'samples': [],
-        'traces_validated_against_impl': nd + nu + na,
-        'distribution': {'decode_forms': dict(dist), 'noenc_paths': dict(fb), 'stuck_skipped(\\N{name})': stuck + stuck2,
-                         'decode_cases': nd, 'uescape_cases': nu, 'api_corr_cases': na, 'sweep': sw},
-    })
-    return res
-
-
-def run_oracle_only(ctx):
-    res = {'disagreements': [], 'failures': []}
-    sw = sweep(ctx, res)
-    res.update({'evaluations': sw['api_evals'] + sw['cli_cases'], 'distinct_nontrivial': sw['cli_cases'],
-                'rule': 'oracle only (model unavailable)', 'samples': [], 'distribution': {'sweep': sw}})
-    return res
-
-
-def search(ctx, hints):
-    """Direct oracles over the disagreeing inputs first, then the generators under a budget."""
-    tried = 0
-    fails = []
-    obs = observers()
-    for d in hints.get('disagreements', []):
-        if 'bytes' in d:
-            tried += 1
-            f = oracle_bytes({'kind': 'bytes', 'bytes': d['bytes']}, obs)
-            if f:
-                fails.append(f)
-                break
-        elif 'input' in d:
-            tried += 1
-            f = oracle_api({'kind': 'api', 'text': d['input'], 'enc': 'utf-8'}, obs)
-            if f:
-                fails.append(f)
-                break
-    t0 = time.time()
-    budget = ctx.n(60, 600)
-    while not fails and time.time() - t0 < budget:
-        tried += 1
-        bs = GF.byte_soup(ctx.rng)
-        f = oracle_bytes({'kind': 'bytes', 'bytes': list(bs)}, obs[:4])
-        if not f:
-            cs, _ = gen_api_cases(ctx, 1)
-            f = oracle_api(cs[0], obs)
-        if f:
-            fails.append(f)
-    return {'failures': fails[:1], 'tried': tried}
+Two parts: `api` (decode ladder, codecs, parse/parsestream/split/format on str / stream / bytes; oracle over every front end,
+CLI included as a black box) and `cli` (the command line inside the model: argparse table and main() regenerated from the
+source, executable model of argument parsing and of main's input/output handling, theorems, correspondence with the real
+sqlparse.cli)."""
+from props import composite, C19_api, C19_cli
+
+composite.make(globals(), [('api', C19_api), ('cli', C19_cli)])
